@@ -34,7 +34,7 @@ ASSUMPTIONS = ['fresh-object reference = the same source files loaded a second t
 EXHAUSTIVE = {'quick': False, 'thorough': False}
 MINIMA = {'quick': {'close_pairs': 100, 'dtype_pairs': 100, 'buffer_mutations': 200, 'diag_invariant': 5000, 'reads_compared': 3000, 'set:bigrams': 60, 'distinct_nontrivial': 150,
                     'insitu_searches': 10},
-          'thorough': {'close_pairs': 1500, 'dtype_pairs': 1500, 'buffer_mutations': 3000, 'diag_invariant': 100000, 'reads_compared': 50000, 'set:bigrams': 100, 'distinct_nontrivial': 2000,
+          'thorough': {'close_pairs': 1500, 'dtype_pairs': 1500, 'buffer_mutations': 2700, 'diag_invariant': 100000, 'reads_compared': 45000, 'set:bigrams': 100, 'distinct_nontrivial': 2000,
                        'insitu_searches': 80}}
 N_HIST = {'quick': 800, 'thorough': 8000}
 N_INSITU = {'quick': 24, 'thorough': 160}
